@@ -57,7 +57,7 @@ Scalars(tp, kind, card, nil) ==
                        ELSE IF nil THEN {VStr("t"), VStr("")} ELSE {VStr("t"), VStr("<&>\"")}
     [] tp = "int"   -> {VInt(0), VInt(0 - 7)}
     [] tp = "bool"  -> {VBool(TRUE), VBool(FALSE)}
-    [] tp = "qname" -> {VQ("urn:c", "q"), VQ("urn:a", "n")}
+    [] tp = "qname" -> {VQ("urn:c-d", "q"), VQ("urn:a", "n")}
     [] tp = "kid"   -> {[t |-> "kid", v |-> VNone, k |-> VNone], [t |-> "kid", v |-> VStr("t"), k |-> VInt(5)]}
     [] tp = "base"  -> {[t |-> "base", x |-> VInt(1)], [t |-> "derived", x |-> VNone, y |-> VStr("d")],
                         [t |-> "derived", x |-> VInt(2), y |-> VNone]}
